@@ -226,6 +226,63 @@ def run(prog: Program, ctx: Ctx) -> None:  # noqa: PLR0912,PLR0915
     store = [s for s in walk_no_nested(xe.node) if isinstance(s, ast.Assign) and unparse(s.targets[0]) == "module.exports" and unparse(s.value) == "expanded"]
     ctx.ob("R5", key(xe, "result-stored"), len(store) == 1, "the expanded list replaces module.exports", where(xe))
 
+    # R5 table: expand_exports evaluated on small module graphs, every order of the sub-module dictionary.  `__all__ = [*m.__all__, "x"]` is list
+    # concatenation: a module's expanded exports are its entries in order, a referenced module's list spliced in place (first occurrence kept).
+    from sa.absint import Native, Obj
+
+    graphs = {
+        "shared-base": {"pkg": None, "pkg.base": ["A", "B"], "pkg.shapes": [("pkg.base",), "S"], "pkg.colors": [("pkg.base",), "R"],
+                        "pkg.api": [("pkg.shapes",), ("pkg.colors",)]},
+        "root-facade": {"pkg": [("pkg.a",), ("pkg.b",), "top"], "pkg.a": ["x", ("pkg.c",)], "pkg.b": [("pkg.c",), "y"], "pkg.c": ["z"]},
+        "chain": {"pkg": None, "pkg.a": [("pkg.b",), "a"], "pkg.b": [("pkg.c",), "b"], "pkg.c": [("pkg.d",), "c"], "pkg.d": ["d"]},
+        "unknown-module": {"pkg": [("ext.mod",), "k"], "pkg.a": ["a"]},
+    }
+
+    def flat(g: dict, path: str, stack: tuple = ()) -> list | None:
+        if g[path] is None:
+            return None
+        out: list = []
+        for e in g[path]:
+            items = [e] if isinstance(e, str) else (flat(g, e[0], (*stack, path)) or [] if e[0] in g and e[0] not in stack else [])
+            out += [x for x in items if x not in out]
+        return out
+
+    it5 = Interp(prog, max_depth=40)
+    name_cls = prog.cls("_griffe.expressions.ExprName")
+    n_tab = 0
+    for gname, g in graphs.items():
+        subs = [p for p in g if p != "pkg"]
+        orders = list(itertools.permutations(subs)) if len(subs) <= 4 else [tuple(subs), tuple(reversed(subs))]
+        for order in orders:
+            objs: dict[str, Obj] = {}
+            for pth in g:
+                objs[pth] = Obj(prog.cls("_griffe.models.Module"), {"name": pth.rsplit(".", 1)[-1], "path": pth, "is_alias": False, "modules": {}}, label=pth)
+            for pth, ex in g.items():
+                objs[pth].attrs["exports"] = None if ex is None else [
+                    e if isinstance(e, str) else Obj(name_cls, {"name": "__all__", "canonical_path": f"{e[0]}.__all__", "parent": None}, label=f"{e[0]}.__all__") for e in ex]
+            objs["pkg"].attrs["modules"] = {p.rsplit(".", 1)[-1]: objs[p] for p in order}
+
+            def get_member(path, objs=objs):
+                if path not in objs:
+                    raise Raised("KeyError")
+                return objs[path]
+
+            loader = Obj(prog.cls(L), {"modules_collection": Obj(None, {"get_member": Native(get_member)})}, label="loader")
+            try:
+                it5.steps = 0
+                it5.call(xe, loader, objs["pkg"])
+                got = {p: (None if o.attrs["exports"] is None else [x if isinstance(x, str) else f"<{x.label}>" for x in o.attrs["exports"]]) for p, o in objs.items()}
+            except Raised as r:
+                got = {"<raises>": r.exc}
+            want = {p: flat(g, p) for p in g}
+            n_tab += 1
+            bad = {p: (got.get(p), want[p]) for p in want if got.get(p) != want[p]}
+            ctx.ob("R5", f"exports-table|{gname}|order={','.join(x.rsplit('.', 1)[-1] for x in order)}", not bad,
+                   f"graph {gname}, sub-modules walked as {[x.rsplit('.', 1)[-1] for x in order]}: every module's expanded __all__ equals the concatenation Python computes" if not bad else
+                   f"graph {gname}, sub-modules walked as {[x.rsplit('.', 1)[-1] for x in order]}: " + "; ".join(f"{p}.__all__ = {g_} but Python gives {w_}" for p, (g_, w_) in bad.items()),
+                   where(xe))
+    ctx.expect_min("R5", n_tab, 40)
+
     # ------------------------------------------------------------------ R6
     from sa.importrules import import_rules, importfrom_table
 
